@@ -11,7 +11,7 @@ may be structurally equal — that is what de-duplication is about) and `key i`,
 
 The Go `cellInfo` structs are kept as a structure of arrays indexed by the import index (`rows`, `refs`, `cache`,
 `wt`, `newIndex`), so that the weight passes visibly touch nothing but the weights. Recursion is by fuel: `importCell`
-nests at most once per level of the graph, `revisit` at most twice per import index (`revisit_fuel_sufficient`).
+nests at most once per level of the graph, `revisit` at most twice per import index (sufficiency of the fuel is part of `importCell_spec` / `revisit_spec`).
 Core Lean only. -/
 namespace Tongo.Boc.Order
 open Tongo Tongo.Boc
